@@ -354,7 +354,7 @@ def run(ctx):
     else:
         groups = re.findall(r'\[(.*?)\]', m.group(1).replace('\n', ' '))
         for k, g in zip(['v2', 'cfg', 'sym', 'macro', 'cli'], groups):
-            fails[k] = [int(t) for t in g.split(';') if t.strip()]
+            fails[k] = [int(t.replace('%nat', '').strip()) for t in g.split(';') if t.strip()]
         for k, ix in fails.items():
             for i in ix[:2]:
                 what = {'v2': 'Gen/PyFuns v3_prefixes_from_v2_prefix disagrees with the real function',
